@@ -60,7 +60,8 @@ pub fn run(ctx: &Ctx) -> bool {
         "C13" => {
             c13::run(ctx);
             c13::run_generated(ctx);
-            c13::run_generated_http(ctx)
+            c13::run_generated_http(ctx);
+            c13::run_parallel_mode(ctx)
         }
         "C14" => c14::run(ctx),
         "C15" => {
